@@ -132,7 +132,7 @@ CHECKS = {
   technique="reference-model monitor: sequential multi-session histories over raw connections against the real server + in-memory backend; every response parsed by the independent tokenizer and compared with a reference mailbox model (UID allocation, UIDVALIDITY history, flags, expunge/move sets, STATUS, LIST with an independent wildcard matcher, SEARCH through the independent reference matcher, FETCH sections / partials / BODYSTRUCTURE / ENVELOPE against MIME trees the messages were generated from); crash oracle = missing tagged reply, closed connection or panic in the server log; race detector on",
   text="Seeded histories of 50 commands (CREATE/DELETE/RENAME/SUBSCRIBE/LIST/LSUB/STATUS/APPEND/SELECT/EXAMINE/STORE/COPY/MOVE/EXPUNGE/UID EXPUNGE/SEARCH/FETCH/NOOP/IDLE/CLOSE) by 1..3 sessions over 2..4 mailboxes; search keys of every kind with NOT/OR/group nesting and RETURN options incl. SAVE/$; sections with part paths, HEADER.FIELDS(.NOT), MIME, TEXT, partials with offsets and sizes up to 2^63-1; LIST patterns with references, multiple patterns, SUBSCRIBED and STATUS return options; every 5th history appends malformed messages (crash probing only); final audit of every mailbox through a fresh connection.",
   design_ref="DESIGN.md §3 C09",
-  note="Latitude granted where RFC 3501/9051 leave the outcome open is listed in the evidence assumptions; DELETE of a selected mailbox, RENAME of INBOX or of a mailbox with inferiors and write commands under EXAMINE are not generated."),
+  note="Latitude granted where RFC 3501/9051 leave the outcome open is listed in the evidence assumptions; DELETE of a selected mailbox, RENAME of INBOX and write commands under EXAMINE are not generated."),
  "C14": dict(
   category="exploration",
   technique="Go race detector + Goodlock-style lock-order graph (instance level, gate-lock aware) + per-command watchdog decided on two goroutine dumps, under stress workloads of concurrent sessions with schedule perturbation: seeded yields injected at every lock/unlock site of packages imapserver and imapmemserver by source-level instrumentation generated from the current tree (cmd/lockgen, go build -overlay), GOMAXPROCS varied",
